@@ -176,6 +176,15 @@ func (e *Engine) verifyFunc(fn *ssa.Function, fc *FuncContract, safety bool, dev
 				fr.oblig(kind, a.c.Props, fn.Pos(), a.c.name(), or(a.conds...), and(a.goals...))
 			}
 		}
+		// vacuity: some normal exit is reachable under the assumptions made on the way
+		if len(fr.exits) > 0 && (len(fc.Ensures) > 0 || len(fc.Requires) > 0) {
+			var conds []string
+			for _, x := range fr.exits {
+				conds = append(conds, x.cond)
+			}
+			o := fr.oblig("cover/exit", allProps(fc), fn.Pos(), "normal exit reachable", or(conds...), "true")
+			o.Cover = true
+		}
 		collect(fr.exits, fc.Ensures, "post", true)
 		collect(fr.xexits, fc.XEnsures, "xpost", false)
 		// declared frame covers inferred effects
